@@ -1,12 +1,98 @@
 (* Run_C01.v -- verdict for C01: replay the recorded history on the reference
-   spec and compare outputs, count and the full live documents after every batch. *)
+   spec S and compare outputs, count and the full live documents after every
+   batch; check the reads by id; judge the dumped buckets with the verified
+   checker (dump_inv_b / dump_abs); replay the mechanism model M with the node
+   ids the real code chose and compare its buckets with the dump.
+
+   Verdict = 0 or code + 1000 * (1 + step index):
+     101 batch output (error kind / reported ids) differs from S
+     102 Info().PointCount differs from |S|
+     103 the live documents (select-all read) differ from S
+     104 a read by id does not return exactly the live requested points with their documents
+     105 a read by id answered with an error
+     111 the dumped buckets violate the invariant (dump_inv_b)
+     112 the store the dumped buckets represent (dump_abs) differs from the live documents
+     211 the dumped buckets differ from the buckets of M
+     212 a node id the real code chose is not a legal choice of the allocator model *)
 From Coq Require Import List NArith ZArith Bool.
-From Semadb Require Import Bytes Pack Value Obs KeyLayout Model_C01.
+From Semadb Require Import Bytes Pack Value Obs KeyLayout Model_C01 Model_C01M.
 Import ListNotations.
 Open Scope N_scope.
 
+(* ---- reads by id with select ["*"] ---- *)
+Definition sel_star : list bytes := [[42]].
+Definition read_ids (q : query) : option (list uuid) :=
+  match q with QIdEq id => Some [id] | QIdAny ids => Some ids | _ => None end.
+
+Definition check_read (s : store) (rq : request * qout) : N :=
+  let '(r, out) := rq in
+  match read_ids (rq_query r) with
+  | None => 0
+  | Some ids =>
+      if negb (list_eqb bytes_eqb (rq_select r) sel_star) then 0
+      else if negb ((rq_offset r =? 0) && (rq_limit r =? 0)) then 0
+      else match rq_sort r with
+           | _ :: _ => 0
+           | [] =>
+               match out with
+               | QError _ => 105
+               | QRows rows =>
+                   let expected := filter (fun id => st_mem id s) (dedup ids) in
+                   if has_dup (map r_id rows) then 104
+                   else if negb (same_ids (map r_id rows) expected) then 104
+                   else if negb (forallb (fun rw => match r_doc rw, st_get (r_id rw) s with
+                                                   | Some d, Some d' => doc_eqb d d'
+                                                   | _, _ => false
+                                                   end) rows) then 104
+                   else 0
+               end
+           end
+  end.
+Fixpoint check_reads (s : store) (qs : list (request * qout)) : N :=
+  match qs with
+  | [] => 0
+  | q :: r => let c := check_read s q in if c =? 0 then check_reads s r else c
+  end.
+
+(* ---- the dump of a step ---- *)
+Definition name_points : bytes := points_bucket_name.
+Definition name_internal : bytes := [105; 110; 116; 101; 114; 110; 97; 108].
+Fixpoint find_bucket (name : bytes) (xs : list extra) : option (list (bytes * bytes)) :=
+  match xs with
+  | [] => None
+  | XBucket n kvs :: r => if bytes_eqb n name then Some kvs else find_bucket name r
+  | _ :: r => find_bucket name r
+  end.
+Fixpoint find_docs (name : bytes) (xs : list extra) : option (list (bytes * doc)) :=
+  match xs with
+  | [] => None
+  | XDocs n kds :: r => if bytes_eqb n name then Some kds else find_docs name r
+  | _ :: r => find_docs name r
+  end.
+Definition get_dump (xs : list extra) : option dump :=
+  match find_bucket name_points xs, find_docs name_points xs, find_bucket name_internal xs with
+  | Some p, Some d, Some i => Some (mkDump p d i)
+  | _, _, _ => None
+  end.
+
+(* the node ids the real code gave the points of an accepted insert batch *)
+Definition choices_of (b : batch) (o : bout) (d : dump) : list N :=
+  match b, o with
+  | BInsert ps, OOk _ => map (fun p => match raw_get (fst p) (dump_pts d) with Some n => n | None => 0 end) ps
+  | _, _ => []
+  end.
+
+(* cfg 4 is the in-memory backend: it has no transactions, so a batch that fails
+   INSIDE the write (existing id, wrong type, oversized merge) is not rolled back.
+   "A failed batch has no effect" on that backend is the subject of C07, and the
+   generator is meant not to produce such batches there; if one occurs its error
+   kind is still judged (101) and the judging of the history ends with that step. *)
+Definition in_tx_reject (m : sout) : bool :=
+  match m with SErr ks => negb (forallb (N.eqb ERR_DUP) ks) | SOk _ => false end.
+
 (* returns 0 or code + 1000 * (1 + step index) *)
-Fixpoint judge_steps (sc : schema) (maxsize : N) (i : N) (steps : list step) (s : store) : N :=
+Fixpoint judge_steps (sc : schema) (maxsize cfg : N) (i : N) (steps : list step) (s : store)
+         (om : option mstate) : N :=
   match steps with
   | [] => 0
   | st :: rest =>
@@ -15,13 +101,35 @@ Fixpoint judge_steps (sc : schema) (maxsize : N) (i : N) (steps : list step) (s 
       | o =>
           let '(s', m) := apply_spec sc maxsize (s_batch st) s in
           if negb (out_ok o m) then 101 + 1000 * (i + 1)
+          else if (cfg =? 4) && in_tx_reject m then 0
           else if negb (s_count st =? N.of_nat (length s')) then 102 + 1000 * (i + 1)
           else if negb (store_eqb (s_live st) s') then 103 + 1000 * (i + 1)
-          else judge_steps sc maxsize (i + 1) rest s'
+          else
+            let c := check_reads s' (s_queries st) in
+            if negb (c =? 0) then c + 1000 * (i + 1)
+            else
+              match get_dump (s_extra st) with
+              | None => judge_steps sc maxsize cfg (i + 1) rest s' None   (* no dump: M is not followed further *)
+              | Some d =>
+                  if negb (dump_inv_b d) then 111 + 1000 * (i + 1)
+                  else if negb (store_eqb (dump_abs d) (s_live st)) then 112 + 1000 * (i + 1)
+                  else
+                    match om with
+                    | None => judge_steps sc maxsize cfg (i + 1) rest s' None
+                    | Some m0 =>
+                        match m_apply sc maxsize (s_batch st) (choices_of (s_batch st) o d) m0 with
+                        | None => 212 + 1000 * (i + 1)
+                        | Some (m1, _) =>
+                            if dump_matches_b d m1 then judge_steps sc maxsize cfg (i + 1) rest s' (Some m1)
+                            else 211 + 1000 * (i + 1)
+                        end
+                    end
+              end
       end
   end.
 
-Definition verdict (h : hist) : N := judge_steps (h_schema h) (h_maxsize h) 0 (h_steps h) [].
+Definition verdict (h : hist) : N :=
+  judge_steps (h_schema h) (h_maxsize h) (h_cfg h) 0 (h_steps h) [] (Some m_init).
 
 Fixpoint bad_from (i : N) (cs : list hist) : list (N * N) :=
   match cs with
